@@ -63,7 +63,10 @@ def c_defaults(vs, names):
     return [[e["file"], e["id"]] for e in vs.entries if e["kind"] == "kw" and e["has_default"] and e["file"] in names]
 
 
-def setup(vs, docs, names, vset, tag, ids=None, key_with_version=True, max_calls=4, mode="mc"):
+ALL_OPS = ("validate", "get_versioned", "export", "mod_validate", "mod_export", "mod_create")
+
+
+def setup(vs, docs, names, vset, tag, ids=None, key_with_version=True, max_calls=4, mode="mc", ops=ALL_OPS):
     """cfg constants + the JSON data file read by spec/Validator.tla (Data); returns (constants, env)"""
     names = sorted(set(names) | {"map"})
     roots = sorted({d["root"] for d in docs})
@@ -86,7 +89,7 @@ def setup(vs, docs, names, vset, tag, ids=None, key_with_version=True, max_calls
     with open(fn, "w") as f:
         json.dump(data, f)
     cst = {"Versions": set(vset), "Names": set(names), "KeyWithVersion": key_with_version, "MaxCalls": max_calls,
-           "Mode": mode}
+           "Mode": mode, "Ops": set(ops)}
     return cst, {"C09_DATA": fn}
 
 
@@ -199,7 +202,6 @@ def run_probes(ck, vs, docs, rows, module_every):
     n_mod = 0
     for i, row in enumerate(rows):
         d = bydoc[row["doc"]]
-        e = vs.by_id.get(d["entry"])
         try:
             msgs = judges.validate(d["dict"], d["root"], row["v"])
         except Exception as ex:  # noqa: BLE001
@@ -294,14 +296,13 @@ def history_runs(ck, vs, vset, n, seed, tag, max_calls=5):
     return docs, hs[:n]
 
 
-def pair_histories(ck, vs, vset, tag):
+def pair_histories(ck, vs, vset, tag, want, ops):
     """every history of exactly two calls over a small representative set (exhaustive, not sampled):
     two calls are the minimal witness of a cache-key / in-place-pruning leak"""
-    want = ("layer.opacity@map/layers", "label.priority/anyOf/2@map/layers/classes/labels", "layer.utfdata@layer")
-    docs = [d for d in vs.entry_docs(entry_ids={"layer.opacity", "label.priority/anyOf/2", "layer.utfdata"}) if d["id"] in want]
+    docs = [d for d in vs.entry_docs(entry_ids={w.split("@")[0] for w in want}) if d["id"] in want]
     if len(docs) != len(want):
         raise MachineryFailure("representative documents missing: %s" % [d["id"] for d in docs])
-    cst, env = setup(vs, docs, ["map", "layer"], vset, tag, max_calls=2, mode="all")
+    cst, env = setup(vs, docs, ["map", "layer"], vset, tag, max_calls=2, mode="all", ops=ops)
     cfg = tlc.cfg_text(constants=cst, invariants=["Emit", "CacheSound", "HistoryIndependent"])
     r = tlc.run("Validator", cfg, tag=tag, workers=1, timeout=1800, env=env)
     ck.add_tlc(tag, r)
@@ -480,7 +481,7 @@ def run(tier):
         t0 = time.time()
         # (G2)
         sets = [VERSION_SETS[0], VERSION_SETS[1 + seed % (len(VERSION_SETS) - 1)]] if quick else VERSION_SETS
-        per = 110 if quick else 1300
+        per = 100 if quick else 1300
         for k, vset in enumerate(sets):
             hdocs, hs = history_runs(ck, vs, vset, per, seed * 100 + k, "c09_hist%d" % k, max_calls=5)
             rp = Replayer(vs, hdocs, tmp)
@@ -491,14 +492,19 @@ def run(tier):
             n_hist += len(hs)
             if k == 0:
                 ck.sample({"history": hs[0]})
-        if not quick:
-            pdocs, ps = pair_histories(ck, vs, (50, 76, 77), "c09_pairs")
-            rp = Replayer(vs, pdocs, tmp)
-            for h in ps:
-                replay_history(ck, rp, h, "all-pairs")
-                ck.nontrivial([(s["call"]["op"], s["call"].get("doc") or s["call"].get("name"), s["call"]["v"]) for s in h])
-                steps += len(h)
-            n_pairs = len(ps)
+        if quick:      # calls on the object only, two documents, two versions + none: 225 histories
+            pdocs, ps = pair_histories(ck, vs, (76, 77), "c09_pairs", ("layer.opacity@map/layers", "layer.utfdata@layer"),
+                                       ("validate", "get_versioned", "export"))
+        else:
+            pdocs, ps = pair_histories(ck, vs, (50, 76, 77), "c09_pairs",
+                                       ("layer.opacity@map/layers", "label.priority/anyOf/2@map/layers/classes/labels",
+                                        "layer.utfdata@layer"), ALL_OPS)
+        rp = Replayer(vs, pdocs, tmp)
+        for h in ps:
+            replay_history(ck, rp, h, "all-pairs")
+            ck.nontrivial([(s["call"]["op"], s["call"].get("doc") or s["call"].get("name"), s["call"]["v"]) for s in h])
+            steps += len(h)
+        n_pairs = len(ps)
     finally:
         shutil.rmtree(tmp, ignore_errors=True)
     ck.notes.append("histories %.1fs" % (time.time() - t0))
